@@ -152,6 +152,59 @@ theorem plan_total (p : PlanIn) (hn : p.num ≤ 65536) : (makePlan p).isSome := 
   simp only [hu]
   rfl
 
+/-- **plan_everything_identity.** Subsetting to everything — every glyph id of the font is
+requested — keeps every glyph, and without or with retain-gids the glyph map is the identity and
+`num_output_glyphs` is the font's glyph count: the plan changes nothing. -/
+theorem plan_everything_identity (p : PlanIn) (pl : Plan) (h : makePlan p = some pl)
+    (hn : p.num ≤ 65536) (hall : ∀ g, g < p.num → g ∈ p.gids) :
+    pl.glyphset = List.range p.num ∧ pl.n2o = (List.range p.num).map (fun g => (g, g)) ∧
+    (0 < p.num → pl.nout = p.num) := by
+  have hc := plan_glyphset_contains_requested p pl h
+  obtain ⟨_, _, hgs, hn2o, hnout, _⟩ := makePlan_some p pl h
+  have hset : planGlyphset p = List.range p.num := by
+    have key : ∀ g, g < p.num → g ∈ planGlyphset p := fun g hg =>
+      planColred_sub_glyphset p g (planGsub_sub_colred p g ((mem_planGsub p g).mpr
+        ⟨hg, Or.inr (Or.inl (unicodesToRetain_gids p g (hall g hg) hg))⟩))
+    have : planGlyphset p = (List.range p.num).filter
+        (fun g => (closureAll p.comps (planBudget p) (planColred p) []).contains g) := rfl
+    rw [this, List.filter_eq_self]
+    intro g hg
+    have hlt : g < p.num := by simpa using hg
+    have := key g hlt
+    unfold planGlyphset at this
+    rw [mem_sortedBelow] at this
+    simpa using this.2
+  rw [hgs, hn2o, hnout, hset]
+  have htake : (List.range p.num).take 65536 = List.range p.num :=
+    List.take_of_length_le (by simp; omega)
+  by_cases hf : hasFlag p.flags F_RETAIN_GIDS = true
+  · obtain ⟨h1, h2⟩ := gidMap_retain p.flags (List.range p.num) hf
+    refine ⟨rfl, h1, fun hpos => ?_⟩
+    rw [h2, List.getLast?_range]
+    have : ¬ p.num = 0 := by omega
+    simp [this]; omega
+  · have hf' : hasFlag p.flags F_RETAIN_GIDS = false := by simpa using hf
+    refine ⟨rfl, ?_, fun _ => ?_⟩
+    · apply List.ext_getElem?
+      intro i
+      have e1 := congrArg (fun l => l[i]?) (gidMap_renumber_fst p.flags (List.range p.num) hf')
+      have e2 := congrArg (fun l => l[i]?) (gidMap_renumber_snd p.flags (List.range p.num) hf')
+      simp only [htake, List.getElem?_map, List.length_range] at e1 e2
+      cases hget : (gidMap p.flags (List.range p.num)).1[i]? with
+      | none =>
+        simp only [hget, Option.map_none] at e1
+        simp only [List.getElem?_map]
+        rw [← e1]; rfl
+      | some ab =>
+        simp only [hget, Option.map_some] at e1 e2
+        simp only [List.getElem?_map, ← e1, Option.map_some]
+        congr 1
+        have : (List.range p.num)[i]? = some ab.1 := e1.symm
+        rw [this] at e2
+        simp at e2
+        exact Prod.ext rfl e2
+    · rw [gidMap_renumber_nout _ _ hf', htake]; simp
+
 /-! ## character map -/
 
 /-- **cmap_commutes.** `unicode_to_new_gid_list` (what the cmap subsetter writes) maps a codepoint
@@ -373,6 +426,50 @@ theorem loca_encoding_exact (nout : Nat) (news : List Nat) (gs : List Bytes)
       simp [slotSize, paddedSize]
     omega
 
+/-! ## composite glyphs -/
+
+/-- **components_remapped.** Whenever `subset_composite_glyph` returns a non-empty glyph, the input
+record's component list is well formed, every component glyph id has an image under the plan's glyph
+map, and the output is a prefix (cut after the component list and, if kept, the instructions) of a
+record `full` of the input's length, with the input's 10 header bytes, whose component list — read
+record for record with the same walk — names exactly the images (as u16), in the same order.  (So a
+composite is never written with a component id that was not renumbered consistently with the plan;
+if a component has no image the glyph is emptied instead, which is what the closure theorems are
+about.) -/
+theorem components_remapped (flags : Nat) (gmap : Nat → Option Nat) (d out : Bytes)
+    (h : subsetComposite flags gmap d = out) (hne : out ≠ []) :
+    ∃ (full : Bytes) (ids news : List Nat), out <+: full ∧ full.length = d.length ∧
+      (∀ j, j < 10 → full.getD j 0 = d.getD j 0) ∧
+      compIds d d.length (d.length + 1) 10 = some ids ∧ ids.mapM gmap = some news ∧
+      compIds full d.length (d.length + 1) 10 = some (news.map (· % 65536)) := by
+  unfold subsetComposite at h
+  simp only at h
+  split at h
+  · exact absurd h.symm hne
+  · rename_i full i whi hloop
+    obtain ⟨r1, r2, ids, news, r3, r4, r5⟩ := compLoop_spec flags gmap d.length (d.length + 1) d 10 false _
+      (Nat.le_refl _) hloop
+    refine ⟨full, ids, news, ?_, r1, r2, r3, r4, r5⟩
+    split at h
+    · split at h
+      · exact absurd h.symm hne
+      · rw [← h]; exact List.take_prefix _ _
+    · rw [← h]; exact List.take_prefix _ _
+
+/-! ## trim_simple_glyph_padding -/
+
+/-- **trim_exact.** A non-zero result `k` of `trim_simple_glyph_padding(glyph_data, num_coords)` means:
+`glyph_data` starts with a sequence of flag runs (a flag byte, plus a repeat byte when REPEAT_FLAG is
+set, covering `repeat + 1` points) that covers exactly `num_coords` points, and `k` is the length of
+those flag bytes plus the x/y coordinate bytes the flags call for — everything after `k` is padding. -/
+theorem trim_exact (glyphData : Bytes) (numCoords k : Nat)
+    (h : trimSimpleGlyphPadding glyphData numCoords = k) (hk : k ≠ 0) :
+    ∃ runs : List (Nat × Nat), (∀ r ∈ runs, runOk r) ∧ encRuns runs <+: glyphData ∧
+      (runs.map (·.2)).sum = numCoords ∧
+      k = (encRuns runs).length + (runs.map (fun r => coordSize r.1 * r.2)).sum := by
+  obtain ⟨runs, h1, h2, h3, h4⟩ := trimGo_spec numCoords glyphData 0 0 0 k h hk
+  exact ⟨runs, h1, h2, by omega, by omega⟩
+
 /-! ## non-vacuity -/
 
 /-- 'A' → glyph 3 = composite of glyph 4 = composite of glyph 1 -/
@@ -404,5 +501,14 @@ example : (makePlan exIn2).map (fun pl => (pl.n2o, pl.u2g, pl.nout)) =
 /-- `hmtx_preserved` has instances: trailing equal advances are trimmed to 2 long metrics -/
 example : (subsetHmtx [(500, 1), (600, 2), (600, 3), (700, 4)] [5] [(0, 0), (1, 1), (2, 2)] 3).toOption.map
     (fun o => (o.numH, o.longs, o.lsbs)) = some (2, [(500, 1), (600, 2)], [3]) := by decide
+
+/-- `trim_exact` has instances: 3 on-curve points with 1-byte x and y deltas (flag 0x37 repeated twice more),
+followed by two padding bytes -/
+example : trimSimpleGlyphPadding [0x3F, 2, 1, 2, 3, 4, 5, 6, 0, 0] 3 = 8 := by decide
+
+/-- `components_remapped` has instances: one component (flags ARGS_ARE_XY_VALUES, glyph 5 ↦ 2, byte offsets) -/
+example : subsetComposite 0 (fun g => if g = 5 then some 2 else none)
+    [0xFF, 0xFF, 0, 0, 0, 0, 0, 0, 0, 0, 0x00, 0x02, 0, 5, 1, 1, 0, 0] =
+    [0xFF, 0xFF, 0, 0, 0, 0, 0, 0, 0, 0, 0x00, 0x02, 0, 2, 1, 1] := by decide
 
 end FontVerif.C17
